@@ -166,7 +166,7 @@ func drawModulus(t *rapid.T) *big.Int {
 func TestRSATokenKeyEncoding(t *testing.T) {
 	s := rt.S("rsa-token-key").SetRule("RSA public keys drawn as numbers (modulus 1..4200 bits incl. DER length-form and leading-00 boundaries, exponent in {3,17,65537,2^31-1} or drawn) and the 2048-bit pool keys: UnmarshalTokenKey inverts both SPKI forms, the PSS form equals the harness's DER template, MarshalTokenKey(legacy flag) selects the form; non-trivial = every key; distinct by (N, E)")
 	pool := gen.RSAPool()
-	rt.Check(t, 2000, 200000, func(t *rapid.T) {
+	rt.Check(t, 2000, 1000000, func(t *rapid.T) {
 		var n *big.Int
 		var e int
 		if gen.Uniform(t, 10, "usepool") == 0 {
@@ -234,7 +234,7 @@ func TestRSATokenKeyEncoding(t *testing.T) {
 
 func TestKeyIDs(t *testing.T) {
 	s := rt.S("key-ids").SetRule("issuers of all four types over drawn keys: TokenKeyID() == SHA-256(serialized public key) with the serialization recomputed without pat-go (P-384: crypto/elliptic ScalarBaseMult + compressed; ristretto255: circl group MulGen; RSA: the DER template); requests of types 1,2,5 carry the last id byte; type-3 requests carry SHA-256(name key) and the name key is id||0020||pk||0001||0001; non-trivial = every issuer; distinct by key id and request")
-	rt.Check(t, 150, 8000, func(t *rapid.T) {
+	rt.Check(t, 150, 40000, func(t *rapid.T) {
 		defer rt.Entropy(gen.Seed().Draw(t, "entropy"))()
 		typ := gen.Pick(t, []uint16{1, 2, 3, 5}, "type")
 		s.Eval()
